@@ -5,7 +5,7 @@ cd "$(dirname "$0")/.."
 out=seeded/MATRIX.md
 echo "| seed | property check | reported | first line |" > $out
 echo "|---|---|---|---|" >> $out
-for d in seeded/C??-?; do
+for d in seeded/C??-*/; do d=${d%/}
   s=$(basename $d); p=${s%-*}
   if ! git -C /repo apply --3way /verif/$d/patch.diff >/dev/null 2>&1; then echo "| $s | $p | patch does not apply | |" >> $out; git -C /repo reset --hard HEAD -q; continue; fi
   r=$(./check $p 2>&1)
